@@ -192,3 +192,225 @@ def history_program(rng, length, lanes=ALL_LANES, nkeys=6, ndata=5, removal_weig
             observe_all(prog, rng, lanes, keys, sorted(addrs), read=(rng.random() < 0.5))
     observe_all(prog, rng, lanes, keys, sorted(addrs))
     return prog
+
+
+# ---------------------------------------------------------------------------------------
+# writers: round trips (C02), declared size / integrity (C08), abandonment (C14)
+# ---------------------------------------------------------------------------------------
+
+MIB = 1024 * 1024
+SIZE_CLASSES_SMALL = [0, 1, 2, 3, 7, 64, 255, 1000, 4096, 8192, 8193, 70000]
+SIZE_CLASSES_BIG = [MIB - 1, MIB, MIB + 1, 3 * MIB + 17]
+
+
+def chunkings(rng, n, big=False):
+    """list of (from, to) slices covering [0, n), several shapes"""
+    shapes = []
+    shapes.append([(0, n)])
+    if 0 < n <= 40 and not big:
+        shapes.append([(i, i + 1) for i in range(n)])
+    if n >= 2:
+        cuts, lo, step = [], 0, max(1, n // 2)
+        while lo < n:                      # decreasing chunk sizes
+            hi = min(n, lo + step)
+            cuts.append((lo, hi))
+            lo, step = hi, max(1, step // 2) if not big else max(n // 8, step // 2)
+            if big and len(cuts) >= 5:
+                cuts.append((lo, n)) if lo < n else None
+                break
+        shapes.append([c for c in cuts if c])
+    # with empty chunks
+    mid = n // 2
+    shapes.append([(0, 0), (0, mid), (mid, mid), (mid, n), (n, n)])
+    # random cuts
+    k = rng.randrange(1, 4 if big else 7)
+    pts = sorted({0, n} | {rng.randrange(0, n + 1) for _ in range(k)})
+    shapes.append([(pts[i], pts[i + 1]) for i in range(len(pts) - 1)] or [(0, n)])
+    return shapes
+
+
+def _mk_data(prog, rng, n):
+    if n <= 8192:
+        return add_blob(prog, bytes(rng.randrange(256) for _ in range(n)))
+    return add_blob(prog, gen=(rng.randrange(1 << 40), n))
+
+
+def write_steps(rng, prog, lane, d, n, algo, key=None, how="oneshot", chunks=None, opts=None,
+                alias="w", all_=True):
+    """steps that store blob d (length n) through one entry point"""
+    st = []
+    if how == "oneshot":
+        s = {"op": "write", "lane": lane, "data": d, "algo": algo,
+             "variant": "plain" if (algo == "sha256" and rng.random() < 0.5) else "algo"}
+        if key:
+            s["key"] = key
+        st.append(s)
+        return st
+    o = dict(opts or {})
+    o["algo"] = algo
+    s = {"op": "open_writer", "lane": lane, "opts": o, "as": alias, "plan": d, "via": "opts"}
+    if how == "create" and key and algo == "sha256":
+        s["via"] = "create"
+        s["opts"] = {}
+    elif how == "create_with_algo" and key:
+        s["via"] = "create_with_algo"
+        s["algo"] = algo
+        s["opts"] = {}
+    if key:
+        s["key"] = key
+    st.append(s)
+    for (lo, hi) in (chunks or [(0, n)]):
+        st.append({"op": "w_write", "lane": lane, "h": alias, "data": d, "from": lo, "to": hi, "all": all_})
+    if rng.random() < 0.2:
+        st.append({"op": "w_flush", "lane": lane, "h": alias})
+    st.append({"op": "w_commit", "lane": lane, "h": alias})
+    return st
+
+
+def roundtrip_program(rng, ncases, lanes=ALL_LANES, big=False, algos=ALGOS):
+    prog = {"keys": {}, "blobs": {}, "steps": []}
+    for c in range(ncases):
+        n = rng.choice(SIZE_CLASSES_BIG if big else SIZE_CLASSES_SMALL)
+        d = _mk_data(prog, rng, n)
+        algo = rng.choice(algos)
+        lane = rng.choice(lanes)
+        keyed = rng.random() < 0.7
+        key = add_key(prog, rand_key(rng, c)) if keyed else None
+        how = rng.choice(["oneshot", "opts", "opts", "create", "create_with_algo"])
+        if not keyed and how in ("create", "create_with_algo"):
+            how = "opts"
+        opts = {}
+        if how == "opts" and rng.random() < 0.5:
+            opts["size"] = n                      # correctly declared size
+        ch = rng.choice(chunkings(rng, n, big))
+        prog["steps"] += write_steps(rng, prog, lane, d, n, algo, key, how, ch, opts, alias="w%d" % c,
+                                     all_=(rng.random() < 0.85))
+        # read back by key and by address through other entry points
+        for _ in range(2):
+            l2 = rng.choice(lanes)
+            if key:
+                prog["steps"].append({"op": "read", "lane": l2, "key": key})
+            prog["steps"].append({"op": "read", "lane": rng.choice(lanes), "sri": [{"a": algo, "d": d}]})
+        if key:
+            prog["steps"].append({"op": "metadata", "lane": rng.choice(lanes), "key": key})
+            if rng.random() < 0.3:
+                rd = "r%d" % c
+                prog["steps"].append({"op": "open_reader", "lane": lane, "key": key, "as": rd})
+                prog["steps"].append({"op": "r_read", "lane": lane, "h": rd, "n": rng.choice([1, 7, 1024, 65536]),
+                                      "all": True})
+                prog["steps"].append({"op": "r_check", "lane": lane, "h": rd})
+        prog["steps"].append({"op": "exists", "lane": rng.choice(lanes), "sri": [{"a": algo, "d": d}]})
+    return prog
+
+
+def commit_program(rng, ncases, lanes=ALL_LANES, big=False, algos=("sha256", "sha512", "sha1")):
+    """C08: declared size {less, equal, more} x declared integrity {none, right, wrong, other
+    algorithm, multi containing the right one} x prior state of the key x chunking x keyed/hash"""
+    prog = {"keys": {}, "blobs": {}, "steps": []}
+    wrong = add_blob(prog, b"some other bytes %d" % rng.randrange(10 ** 6))
+    for c in range(ncases):
+        n = rng.choice([MIB - 1, MIB, MIB + 1] if big else [0, 1, 5, 100, 5000])
+        d = _mk_data(prog, rng, n)
+        algo = rng.choice(algos)
+        other = rng.choice([a for a in ("sha256", "sha512", "sha1", "sha384") if a != algo])
+        lane = rng.choice(lanes)
+        keyed = rng.random() < 0.75
+        key = add_key(prog, rand_key(rng, c)) if keyed else None
+        prior = rng.choice(["absent", "present", "removed"])
+        if key and prior != "absent":
+            d0 = _mk_data(prog, rng, 9)
+            prog["steps"].append({"op": "write", "lane": rng.choice(lanes), "key": key, "data": d0, "algo": "sha256"})
+            if prior == "removed":
+                prog["steps"].append({"op": "remove", "lane": rng.choice(lanes), "key": key})
+        opts = {}
+        sz = rng.choice(["none", "less", "equal", "equal", "more"])
+        if sz == "less" and n > 0:
+            opts["size"] = rng.choice([0, n - 1, max(0, n // 2)])
+        elif sz == "equal":
+            opts["size"] = n
+        elif sz == "more":
+            opts["size"] = n + rng.choice([1, 7, 5000])
+        sk = rng.choice(["none", "none", "right", "wrong", "other", "multi_weaker"])
+        if sk == "right":
+            opts["sri"] = [{"a": algo, "d": d}]
+        elif sk == "wrong":
+            opts["sri"] = [{"a": algo, "d": wrong}]
+        elif sk == "other":
+            opts["sri"] = [{"a": other, "d": d}]
+        elif sk == "multi_weaker":
+            # the right hash plus a hash of a weaker algorithm: the strongest algorithm of the
+            # declared value is the writer's own, so the entry stays readable by key
+            weaker = [a for a in ("sha1",) if ALGOS_RANK[a] > ALGOS_RANK[algo]]
+            opts["sri"] = [{"a": algo, "d": d}] + ([{"a": weaker[0], "d": d}] if weaker else [])
+        if rng.random() < 0.3:
+            opts.update(rand_opts(rng))
+        if key:
+            prog["steps"].append({"op": "metadata", "lane": rng.choice(lanes), "key": key})
+        ch = rng.choice(chunkings(rng, n, big))
+        prog["steps"] += write_steps(rng, prog, lane, d, n, algo, key, "opts", ch, opts, alias="w%d" % c)
+        if key:
+            prog["steps"].append({"op": "metadata", "lane": rng.choice(lanes), "key": key})
+            prog["steps"].append({"op": "read", "lane": rng.choice(lanes), "key": key})
+        prog["steps"].append({"op": "list", "lane": rng.choice(lanes)})
+    return prog
+
+
+ALGOS_RANK = {"sha512": 0, "sha384": 1, "sha256": 2, "sha1": 3, "xxh3": 4}
+
+
+def abandon_program(rng, ncases, lanes=ALL_LANES, big=False):
+    """C14: writers abandoned at every point, interleaved with successful operations"""
+    prog = {"keys": {}, "blobs": {}, "steps": []}
+    okkeys = [add_key(prog, "stable-%d-%d" % (i, rng.randrange(10 ** 6))) for i in range(2)]
+    d_ok = _mk_data(prog, rng, 33)
+    wrong = add_blob(prog, b"not the data %d" % rng.randrange(10 ** 6))
+    for k in okkeys:
+        prog["steps"].append({"op": "write", "lane": rng.choice(lanes), "key": k, "data": d_ok, "algo": "sha256"})
+    for c in range(ncases):
+        n = rng.choice([MIB + 5, 2 * MIB] if big else [0, 1, 10, 5000, 70000])
+        d = _mk_data(prog, rng, n)
+        lane = rng.choice(lanes)
+        keyed = rng.random() < 0.8
+        key = add_key(prog, rand_key(rng, c)) if keyed else None
+        opts = rand_opts(rng) if rng.random() < 0.3 else {}
+        point = rng.choice(["after_open", "after_chunks", "inflight", "after_close", "rejected_size",
+                            "rejected_sri", "after_all"])
+        ch = rng.choice(chunkings(rng, n, big))
+        w = "w%d" % c
+        if point == "rejected_size":
+            opts["size"] = n + 1
+        if point == "rejected_sri":
+            opts["sri"] = [{"a": "sha256", "d": wrong}]
+        s = {"op": "open_writer", "lane": lane, "opts": dict(opts, algo="sha256"), "as": w, "plan": d}
+        if key:
+            s["key"] = key
+        prog["steps"].append(s)
+        if point == "after_open":
+            feed = []
+        elif point in ("after_chunks", "inflight"):
+            feed = ch[:rng.randrange(0, len(ch) + 1)]
+        else:
+            feed = ch
+        for (lo, hi) in feed:
+            prog["steps"].append({"op": "w_write", "lane": lane, "h": w, "data": d, "from": lo, "to": hi})
+        # an unrelated successful operation while the writer is open
+        if rng.random() < 0.5:
+            prog["steps"].append({"op": "write", "lane": rng.choice(lanes), "key": rng.choice(okkeys),
+                                  "data": d_ok, "algo": "sha256"})
+        if point in ("rejected_size", "rejected_sri"):
+            prog["steps"].append({"op": "w_commit", "lane": lane, "h": w})
+        elif point == "inflight" and lane in ("Aa", "Ta"):
+            prog["steps"].append({"op": "h_drop", "lane": lane, "h": w, "inflight": True, "data": d,
+                                  "from": 0, "to": min(n, 4096)})
+        elif point == "after_close" and lane in ("Aa", "Ta"):
+            prog["steps"].append({"op": "w_close", "lane": lane, "h": w})
+            if rng.random() < 0.5:
+                prog["steps"].append({"op": "w_write", "lane": lane, "h": w, "data": d, "from": 0, "to": min(n, 3)})
+            if rng.random() < 0.5:
+                prog["steps"].append({"op": "w_commit", "lane": lane, "h": w})
+            else:
+                prog["steps"].append({"op": "h_drop", "lane": lane, "h": w})
+        else:
+            prog["steps"].append({"op": "h_drop", "lane": lane, "h": w})
+        observe_all(prog, rng, lanes, okkeys + ([key] if key else []), [("sha256", d_ok)], read=False)
+    return prog
